@@ -274,6 +274,52 @@ pub fn generate(ctx: &mut Ctx) {
         }
         bi += 1;
     }
+    // long single components (beyond any fixed decode buffer) that differ early, in the middle or only at
+    // the very end, with and without escapes
+    for len in [1usize, 2, 15, 16, 17, 31, 32, 33, 63, 64, 65, 66, 100, 127, 128, 129, 191, 192, 193, 255, 256, 257, 300, 511, 513, 1000, 4097] {
+        if ctx.mine(bi) {
+            let base: String = (0..len).map(|i| (b'a' + (i % 23) as u8) as char).collect();
+            for pos in [0usize, len / 2, len.saturating_sub(2), len - 1] {
+                let mut other = base.clone().into_bytes();
+                other[pos] = if other[pos] == b'z' { b'y' } else { b'z' };
+                let other = String::from_utf8(other).unwrap();
+                // spellings: plain, one escape at the start, one at the end, every third character escaped
+                let enc = |s: &str, mode: usize| -> String {
+                    let mut o = String::new();
+                    for (i, c) in s.chars().enumerate() {
+                        let e = match mode { 0 => false, 1 => i == 0, 2 => i + 1 == s.len(), _ => i % 3 == 0 };
+                        if e { o.push_str(&format!("%{:02X}", c as u32)); } else { o.push(c); }
+                    }
+                    o
+                };
+                for (ma, mb) in [(0usize, 0usize), (1, 0), (0, 2), (1, 2), (3, 0), (3, 3), (2, 1)] {
+                    let (x, y, xe) = (enc(&base, ma), enc(&other, mb), enc(&base, mb));
+                    for kind in [4u64, 5, 6, 2, 3, 1] {
+                        ctx.run(Case::new("comp").arg(x.as_str()).arg(y.as_str()).num(kind));
+                        ctx.run(Case::new("comp").arg(x.as_str()).arg(xe.as_str()).num(kind));
+                    }
+                    ctx.run(Case::new("pair").arg(format!("s://h/p/{}?{}#{}", x, x, x)).arg(format!("s://h/p/{}?{}#{}", y, x, x)));
+                    ctx.run(Case::new("pair").arg(format!("s://h/p/{}?{}#{}", x, x, x)).arg(format!("s://h/p/{}?{}#{}", xe, y, x)));
+                    ctx.run(Case::new("pair").arg(format!("s://h/p/{}?{}#{}", x, x, x)).arg(format!("s://h/p/{}?{}#{}", xe, xe, y)));
+                    ctx.run(Case::new("pair").arg(format!("s://h/p/{}?{}#{}", x, x, x)).arg(format!("s://h/p/{}?{}#{}", xe, xe, xe)));
+                }
+            }
+        }
+        bi += 1;
+    }
+    // a real delimiter and its percent-encoded twin trading places across a component boundary
+    for (l, r) in [("//a%40b@c", "//a@b%40c"), ("//u%40v@h%40i", "//u@v%40h%40i"), ("a%2Fb/c", "a/b%2Fc"), ("/a%2Fb/c", "/a/b%2Fc"), ("p%3Fq?r", "p?q%3Fr"), ("?q%23f#g", "?q#f%23g"), ("p%23?q#f", "p#%3Fq%23f"),
+                   ("//h%3A1:2", "//h:1%3A2"), ("//u%3Ap:q@h", "//u:p%3Aq@h"), ("//u:p@h", "//u%3Ap@h"), ("s://a%40b@c/x", "s://a@b%40c/x"), ("s://a@b/c%2Fd/e", "s://a@b/c/d%2Fe"), ("//%5B::1%5D", "//[::1]"), ("//a%40b@c:1", "//a@b%40c:1")] {
+        if ctx.mine(bi) {
+            ctx.run(Case::new("pair").arg(l).arg(r));
+            ctx.run(Case::new("pair").arg(r).arg(l));
+            ctx.run(Case::new("comp").arg(l.trim_start_matches("s:").trim_start_matches("//")).arg(r.trim_start_matches("s:").trim_start_matches("//")).num(0));
+            ctx.run(Case::new("comp").arg(r.trim_start_matches("s:").trim_start_matches("//")).arg(l.trim_start_matches("s:").trim_start_matches("//")).num(0));
+            ctx.run(Case::new("comp").arg(l).arg(r).num(1));
+            ctx.run(Case::new("comp").arg(r).arg(l).num(1));
+        }
+        bi += 1;
+    }
     // the full product of authority shapes, all pairs (stand-alone and inside a reference)
     {
         let uis: [Option<&str>; 6] = [None, Some(""), Some("u"), Some("%75"), Some("u:p"), Some(":")];
